@@ -46,6 +46,9 @@ type Func struct {
 	Cases []*Case // Cases[0] is the default block
 	Assigns []string
 	HasAssigns bool
+	// Reads: heap locations ("Type.Field") a pure function may depend on; the current
+	// contents of those fields are extra arguments of its uninterpreted symbol
+	Reads []string
 	PanicsWhen []Clause
 	Decreases *Clause
 }
@@ -241,6 +244,12 @@ func (s *Set) parseFile(path, rel string) error {
 			}
 			c.Name = strings.TrimSpace(rest[:j])
 			curCase.Lemmas = append(curCase.Lemmas, c)
+		case "reads":
+			for _, l := range strings.Split(rest, ",") {
+				if l = strings.TrimSpace(l); l != "" {
+					cur.Reads = append(cur.Reads, l)
+				}
+			}
 		case "assigns":
 			cur.HasAssigns = true
 			for _, l := range strings.Split(rest, ",") {
